@@ -13,3 +13,4 @@ import Golem.Props.C09
 import Golem.Props.C12
 import Golem.Props.C14
 import Golem.Props.C15
+import Golem.Props.C10
